@@ -59,7 +59,8 @@ pub fn run(ctx: &Ctx, rep: &mut Report) {
             pcs.dedup();
             for pc in pcs {
                 for seeded in [false, true] {
-                    let commitments: Vec<P> = (0..count).map(|_| <P as Gx>::random_point(&mut rng)).collect();
+                    // any group element is a commitment, the identity included
+                    let commitments: Vec<P> = (0..count).map(|j| if (j + cap + pc) % 5 == 0 { P::identity() } else { <P as Gx>::random_point(&mut rng) }).collect();
                     let promises: Vec<Option<u64>> = (0..pc).map(|j| if j % 2 == 0 { None } else { Some(j as u64) }).collect();
                     let seed = if seeded { Some(if (count + cap + pc) % 3 == 0 { Scalar::ZERO } else { rand_scalar(&mut rng) }) } else { None };
                     let want = count.is_power_of_two() && pc == count && count <= cap && !(seeded && count > 1);
